@@ -6,7 +6,7 @@ From Coq Require Import Reals List Lra.
 From AhrsLib Require Import Base Rot FramesLib.
 From AhrsModel Require Import C17_geodetic.
 From AhrsGen Require Import C17gen_R.
-From AhrsProps Require Import C17_linear C17_aer C17_geo.
+From AhrsProps Require Import C17_linear C17_aer C17_geo C17_conv.
 Import ListNotations.
 Open Scope R_scope.
 
@@ -170,6 +170,71 @@ Theorem C17_geodetic_roundtrip_surface_partial : forall lat lon a b, 0 < b <= a 
   exists x y z, C17_geodetic2ecef_ab_R lat lon 0 a b = Val [x; y; z] /\ C17_ecef2geodetic_ab_u_R x y z a b = Val [lat; lon; 0].
 Proof. exact geodetic_roundtrip_surface. Qed.
 Print Assumptions C17_geodetic_roundtrip_surface_partial.
+
+(* CONVERGENCE.  The loop body is a global contraction towards the geodetic latitude: for EVERY real phi,
+   |T(phi) - phi_g| <= k |phi - phi_g| with k = Lip/(a + h - 2 Lip), Lip = e^2 a/(1 - e^2)^3 (WGS84, h >= -10 km: k <= 0.0070) *)
+Theorem C17_loop_body_contraction : forall lat lon h a b x y z phi,
+  0 < b <= a -> - a < h -> Rabs lat < 90 -> Rabs lon <= 180 -> 2 * Lip a b < a + h ->
+  C17_geodetic2ecef_ab_R lat lon h a b = Val [x; y; z] ->
+  Rabs (Tgeo a b (sqrt (x ^ 2 + y ^ 2)) z phi - rad lat) <= Lip a b / (a + h - 2 * Lip a b) * Rabs (phi - rad lat).
+Proof. exact T_contraction_code. Qed.
+Print Assumptions C17_loop_body_contraction.
+
+(* geodetic -> ECEF -> geodetic THROUGH THE CODE (every exit of the loop, incl. the zero-iteration exit at the equator), any
+   height: for q bounding the contraction factor and the relative error of the first estimate, the returned latitude is within
+   delta*q/(1-q) rad of the original, the longitude is exact, and the height is off by at most the stated bound.
+   PARTIAL only in that |lat| = 90 is excluded (see C17_pole_height_limit) and the loop is the 6-test unrolling
+   (C17_unrolled_is_model; Raise OtherError leaves are not Val, so nothing is claimed for more than 5 iterations —
+   the search oracle observes at most 3). *)
+Theorem C17_geodetic_roundtrip_bound_partial : forall lat lon h a b q x y z la lo hh,
+  0 < b <= a -> - a < h -> Rabs lat < 90 -> - 180 < lon <= 180 -> 0 <= q < 1 ->
+  2 * Lip a b < a + h -> Lip a b <= q * (a + h - 2 * Lip a b) ->
+  ecc2 a b * Rabs h < (1 - ecc2 a b) * (a + h) ->
+  ecc2 a b * Rabs h <= q * ((1 - ecc2 a b) * (a + h) - ecc2 a b * Rabs h) ->
+  C17_geodetic2ecef_ab_R lat lon h a b = Val [x; y; z] -> C17_ecef2geodetic_ab_u_R x y z a b = Val [la; lo; hh] ->
+  let eps := geo_delta * q / (1 - q) in
+  let M := Nrad a b (rad lat) + h in
+  Rabs (rad la - rad lat) <= eps /\ lo = lon /\
+  (eps < cos (rad lat) -> Rabs (hh - h) <= M * eps / (cos (rad lat) - eps) + Lip a b * (geo_delta + eps)).
+Proof. exact geodetic_roundtrip_bound. Qed.
+Print Assumptions C17_geodetic_roundtrip_bound_partial.
+
+(* Earth-like ellipsoids (e^2 <= 0.012), heights between -a/100 and a/6 (WGS84: -63 km .. 1063 km): q = 1/75, so the
+   returned latitude is within 1e-8/74 rad — less than 1e-8 degrees — of the original, and the longitude is exact *)
+Theorem C17_geodetic_roundtrip_earthlike_partial : forall lat lon h a b x y z la lo hh,
+  0 < b <= a -> ecc2 a b <= 3 / 250 -> - a / 100 <= h <= a / 6 -> Rabs lat < 90 -> - 180 < lon <= 180 ->
+  C17_geodetic2ecef_ab_R lat lon h a b = Val [x; y; z] -> C17_ecef2geodetic_ab_u_R x y z a b = Val [la; lo; hh] ->
+  Rabs (rad la - rad lat) <= geo_delta / 74 /\ Rabs (la - lat) <= 1 / 100000000 /\ lo = lon.
+Proof. exact geodetic_roundtrip_earthlike. Qed.
+Print Assumptions C17_geodetic_roundtrip_earthlike_partial.
+
+(* the pole: the height formula is constant = h = |z_pole| - b along the whole meridian |phi| < 90 deg, hence tends to
+   |z_pole| - b as cos(phi) -> 0; the real model's value AT the pole is 0/0 (C17_pole_real_model); the binary64 code
+   relies on cos(fl(pi/2)) = 6.1e-17 appearing in both p and cos(lat) *)
+Theorem C17_pole_height_limit : forall a b h lam, 0 < b <= a -> - b < h ->
+  let zp := (Nrad a b (PI / 2) * (1 - ecc2 a b) + h) * sin (PI / 2) in
+  Rabs zp - b = h /\
+  (forall phi, - (PI / 2) < phi < PI / 2 ->
+     let N := Nrad a b phi in
+     let p := sqrt (((N + h) * cos phi * cos lam) ^ 2 + ((N + h) * cos phi * sin lam) ^ 2) in
+     geo_height p phi N = Rabs zp - b) /\
+  (forall eps, 0 < eps -> exists alp, 0 < alp /\ forall phi, - (PI / 2) < phi < PI / 2 -> Rabs (phi - PI / 2) < alp ->
+     let N := Nrad a b phi in
+     let p := sqrt (((N + h) * cos phi * cos lam) ^ 2 + ((N + h) * cos phi * sin lam) ^ 2) in
+     Rabs (geo_height p phi N - (Rabs ((Nrad a b (PI / 2) * (1 - ecc2 a b) + h) * sin (PI / 2)) - b)) < eps).
+Proof.
+  intros a b h lam Hab Hb. cbv zeta. destruct (pole_height_limit a b h lam Hab Hb) as [A B].
+  split; [exact A|]. split; [exact B|exact (pole_height_limit_eps a b h lam Hab Hb)].
+Qed.
+Print Assumptions C17_pole_height_limit.
+
+(* the antimeridian: the returned longitude equals the original modulo 360; it differs (by +360) only for lon = -180 *)
+Theorem C17_geodetic_roundtrip_lon_mod360 : forall lat lon h a b x y z la lo hh,
+  0 < b <= a -> - a < h -> Rabs lat < 90 -> Rabs lon <= 180 ->
+  C17_geodetic2ecef_ab_R lat lon h a b = Val [x; y; z] -> C17_ecef2geodetic_ab_u_R x y z a b = Val [la; lo; hh] ->
+  (lon <> -180 -> lo = lon) /\ (lon = -180 -> lo = lon + 360) /\ - 180 < lo <= 180.
+Proof. exact geodetic_roundtrip_lon_mod360. Qed.
+Print Assumptions C17_geodetic_roundtrip_lon_mod360.
 
 (* geodetic2ecef rejects exactly the out-of-range angles *)
 Theorem C17_geodetic2ecef_domain : forall lat lon h,
